@@ -112,8 +112,10 @@ impl AsCborValue for CoseSign {
 
         // Remove array elements in reverse order to avoid shifts.
         let signatures = a.remove(3).try_as_array_then_convert(|v| {
-            CoseSignature::from_cbor_value(v)
-                .map_err(|_e| CoseError::UnexpectedItem("non-signature", "map for COSE_Signature"))
+            CoseSignature::from_cbor_value(v).map_err(|e| match e {
+                CoseError::DuplicateMapKey => e,
+                _ => CoseError::UnexpectedItem("non-signature", "map for COSE_Signature"),
+            })
         })?;
 
         Ok(Self {
